@@ -26,7 +26,7 @@ TECHNIQUE = "generated designs and histories; differential check of the profile 
 
 
 def budget(tier):
-    return dict(examples=25, seconds=45) if tier == "quick" else dict(examples=300, seconds=420)
+    return dict(examples=70, seconds=45) if tier == "quick" else dict(examples=300, seconds=420)
 
 
 @st.composite
